@@ -15,7 +15,8 @@ ASSUMPTIONS = [
 ]
 SOURCE_FILES = ["barter/src/engine/state/position.rs", "barter/src/engine/state/instrument/mod.rs", "barter-execution/src/trade.rs",
                 "barter/src/engine/state/mod.rs", "barter-instrument/src/lib.rs"]
-PREBUILD = [["python3", "tools/rust2lean.py", "--require", "position"]]
+PREBUILD = [["python3", "tools/rust2lean.py", "--require", "position"],
+            ["python3", "tools/rust2lean_sm.py", "--require", "position_sm"]]
 CLAIM = True
 TECHNIQUE = "Lean 4: invariant by induction over fill histories relating the PositionManager model to net / cash / fee sums of the history; correspondence of the model with PositionManager::update_from_trade and Engine::process"
 LEVEL_TEXT = ("Proof. Lean theorems over the PositionManager model (lean/BarterModel/Props/C02.lean), for every finite fill list on one instrument with "
@@ -37,6 +38,7 @@ LEVEL_NOTE = ("Trusted: Lean kernel; axioms propext/Classical.choice/Quot.sound 
               "length <= 4 over a 12-symbol alphabet thorough, every field of Position / PositionExited compared after every fill, division-derived fields to "
               "1e-18); harness, driver, orchestrator. Assumes quantity > 0 (quantity = 0 panics in rust_decimal: outside the quantifier) and exact arithmetic "
               "(Decimal rounding / overflow not modelled; products above ~1e8 are kept out of the generated cases because their rounding exceeds the tolerance). "
+              "The whole Position / PositionManager state machine (Position::from(&Trade), PositionExited::from, update_pnl_*, update_from_trade, PositionManager::update_from_trade) is likewise regenerated by tools/rust2lean_sm.py (Generated/Machines.lean) and proved equal to the model (state_machine_agrees_with_source). "
               "Additionally tied by translation: the Lean definitions of the kernels calculate_price_entry_average / calculate_pnl_realised / calculate_pnl_unrealised / approximate_remaining_exit_fees (position.rs) and enum Side (barter-instrument/src/lib.rs) are regenerated from the current source on every run (tools/rust2lean.py) and proved equal to the model's (kernels_agree_with_source), so a change of such a kernel breaks a proof obligation directly; the translator and its Decimal prelude are trusted for that tie.")
 
 
